@@ -16,6 +16,7 @@ CONSTANTS
   CloseConn = TRUE
   HasFallback = TRUE
   AllowClose = FALSE
+  RtoChanges = 1
   DeadlineTicks = TRUE
   OneAtATime = FALSE
   SafePool = FALSE
@@ -28,5 +29,6 @@ INVARIANT RoutedByID
 INVARIANT ConnOwnership
 INVARIANT GoroutinesGone
 PROPERTY ClosedStartsRefused
+PROPERTY RtoSnapshot
 ACTION_CONSTRAINT PrintEdge
 CHECK_DEADLOCK FALSE
